@@ -160,6 +160,7 @@ GLOBALS: list[tuple[str, object]] = []
 _GLOBAL_SNAPS: list = []
 CONTAINERS: list[tuple[str, object, object]] = []   # (name, live container, shallow copy taken at start-up)
 CLEARABLE: list[tuple[str, object]] = []            # functools caches etc. (objects with cache_clear)
+LAZY_SLOTS: list[tuple[object, str]] = []           # (module or class, attribute) that is None at start-up
 
 
 def discover_containers() -> None:
@@ -171,6 +172,7 @@ def discover_containers() -> None:
 
     CONTAINERS.clear()
     CLEARABLE.clear()
+    LAZY_SLOTS.clear()
     seen: set[int] = set()
 
     def add(name, v):
@@ -191,11 +193,15 @@ def discover_containers() -> None:
             v = vars(m)[k]
             if k.startswith("__"):
                 continue
+            if v is None:
+                LAZY_SLOTS.append((m, k))   # a lazily initialised module-level singleton starts out as None
             if isinstance(v, type) and v.__module__ == mname:
                 for ck in sorted(vars(v)):
                     if ck.startswith("__"):
                         continue
                     cv = vars(v)[ck]
+                    if cv is None and ck not in getattr(v, "__annotations__", {}):
+                        LAZY_SLOTS.append((v, ck))
                     add(f"{mname}.{k}.{ck}", cv)
                     f = getattr(cv, "__func__", cv)
                     add(f"{mname}.{k}.{ck}", f)
@@ -216,6 +222,12 @@ def reset_process_state() -> None:
     for _name, f in CLEARABLE:
         try:
             f.cache_clear()
+        except Exception:  # noqa: BLE001
+            pass
+    for owner, attr in LAZY_SLOTS:
+        try:
+            if getattr(owner, attr, None) is not None:
+                setattr(owner, attr, None)
         except Exception:  # noqa: BLE001
             pass
 
